@@ -236,6 +236,102 @@ impl<'a> Read for Chunked<'a> {
     }
 }
 
+
+/// extended failures: every stable io::ErrorKind except the transient Interrupted, each built
+/// in three ways (custom error payload, message payload, bare kind), and raw OS errors
+#[derive(Clone, Copy, Debug, PartialEq, Eq, Hash)]
+pub enum Shape {
+    Token,
+    Message,
+    Bare,
+    Os(i32),
+}
+
+pub fn ext_fails() -> Vec<(ErrorKind, Shape)> {
+    use ErrorKind::*;
+    let kinds = [
+        NotFound, PermissionDenied, ConnectionRefused, ConnectionReset, HostUnreachable, NetworkUnreachable, ConnectionAborted, NotConnected, AddrInUse, AddrNotAvailable, NetworkDown, BrokenPipe, AlreadyExists, WouldBlock, NotADirectory, IsADirectory, DirectoryNotEmpty, ReadOnlyFilesystem, StaleNetworkFileHandle, InvalidInput, InvalidData, TimedOut, WriteZero, StorageFull, NotSeekable, QuotaExceeded, FileTooLarge, ResourceBusy, ExecutableFileBusy, Deadlock, CrossesDevices, TooManyLinks, InvalidFilename, ArgumentListTooLong, Unsupported, UnexpectedEof, OutOfMemory, Other,
+    ];
+    let mut v = Vec::new();
+    for k in kinds {
+        for s in [Shape::Token, Shape::Message, Shape::Bare] {
+            v.push((k, s));
+        }
+    }
+    // EPERM ENOENT EIO ENXIO EBADF EAGAIN ENOMEM EACCES EFAULT EINVAL ENOSPC EPIPE ECONNRESET ETIMEDOUT and an unknown code
+    for code in [1, 2, 5, 6, 9, 11, 12, 13, 14, 22, 28, 32, 104, 110, 4095] {
+        v.push((Other, Shape::Os(code)));
+    }
+    v
+}
+
+fn make_ext(kind: ErrorKind, shape: Shape, tok: u64) -> io::Error {
+    match shape {
+        Shape::Token => io::Error::new(kind, Token(tok)),
+        Shape::Message => io::Error::new(kind, format!("injected failure message {}", tok)),
+        Shape::Bare => kind.into(),
+        Shape::Os(c) => io::Error::from_raw_os_error(c),
+    }
+}
+
+/// the returned error must be IoError holding the injected io::Error itself (same kind, same
+/// OS code, same payload), also reachable through Error::source()
+fn check_ext(e: &AsepriteParseError, kind: ErrorKind, shape: Shape, tok: u64) -> Result<(), String> {
+    let want = make_ext(kind, shape, tok);
+    let same = |got: &io::Error| -> Result<(), String> {
+        if got.kind() != want.kind() {
+            return Err(format!("kind {:?}, injected {:?}", got.kind(), want.kind()));
+        }
+        if got.raw_os_error() != want.raw_os_error() {
+            return Err(format!("raw_os_error {:?}, injected {:?}", got.raw_os_error(), want.raw_os_error()));
+        }
+        let (a, b) = (got.get_ref().map(|r| r.to_string()), want.get_ref().map(|r| r.to_string()));
+        if a != b {
+            return Err(format!("payload {:?}, injected {:?}", a, b));
+        }
+        if shape == Shape::Token && got.get_ref().and_then(|r| r.downcast_ref::<Token>()).map(|t| t.0) != Some(tok) {
+            return Err("payload is not the injected error object".into());
+        }
+        Ok(())
+    };
+    match e {
+        AsepriteParseError::IoError(ioe) => {
+            same(ioe).map_err(|m| format!("IoError holds another error: {}", m))?;
+            match e.source().and_then(|s| s.downcast_ref::<io::Error>()) {
+                Some(src) => same(src).map_err(|m| format!("Error::source() is another io::Error: {}", m)),
+                None => Err("Error::source() does not yield the io::Error".into()),
+            }
+        }
+        other => Err(format!("error variant is not IoError: {}", other)),
+    }
+}
+
+/// reader that fails at one read() call with a prepared error
+struct FailAtCall<'a> {
+    data: &'a [u8],
+    pos: usize,
+    calls: usize,
+    at: usize,
+    kind: ErrorKind,
+    shape: Shape,
+    tok: u64,
+    failed: bool,
+}
+impl<'a> Read for FailAtCall<'a> {
+    fn read(&mut self, buf: &mut [u8]) -> io::Result<usize> {
+        let idx = self.calls;
+        self.calls += 1;
+        if idx == self.at {
+            self.failed = true;
+            return Err(make_ext(self.kind, self.shape, self.tok));
+        }
+        let n = buf.len().min(self.data.len() - self.pos);
+        buf[..n].copy_from_slice(&self.data[self.pos..self.pos + n]);
+        self.pos += n;
+        Ok(n)
+    }
+}
+
 pub fn run(ctx: &Ctx) -> i32 {
     let thorough = ctx.tier == Tier::Thorough;
     let mut want = Want::all();
@@ -461,6 +557,46 @@ pub fn run(ctx: &Ctx) -> i32 {
         }
         ctx.family("error-at-offset", n, "a hard error of each of 8 kinds after exactly p bytes, for every p < end of last frame, bytes before p delivered fully / one at a time / through BufReader(8192) / 3 at a time through BufReader(7)", true);
         ctx.sample(json!({"family": "error-at-offset", "case": "b1 error ConnectionReset at offset 300 delivery#1", "meaning": "bytes 0..299 delivered one per read() call, then read() fails with ConnectionReset carrying a unique token; load must return IoError with that very error as source()"}));
+    }
+
+    // (5) every kind and construction of io::Error at every read() call of the default schedule
+    if ctx.wants_family("error-shapes") {
+        let fails = ext_fails();
+        let mut n = 0u64;
+        for t in targets.iter().filter(|t| t.bytes.len() < 100_000) {
+            let (_, calls, _) = run_script(t, &[]);
+            // read() calls issued before the end of the last frame has been delivered
+            let ncalls = calls.iter().take_while(|c| t.bytes.len() - c.remaining < t.end).count();
+            n += (ncalls * fails.len()) as u64;
+            (0..ncalls).into_par_iter().for_each(|ci| {
+                for (fi, (kind, shape)) in fails.iter().enumerate() {
+                    let case = || format!("{} read() call #{} fails with {:?} built as {:?}", t.name, ci, kind, shape);
+                    if !ctx.wants("error-shapes", &case) {
+                        continue;
+                    }
+                    let tok = 0x5A00_0000 + ci as u64 * 256 + fi as u64;
+                    let mut rd = FailAtCall { data: &t.bytes, pos: 0, calls: 0, at: ci, kind: *kind, shape: *shape, tok, failed: false };
+                    let r = catch_unwind(AssertUnwindSafe(|| AsepriteFile::read(&mut rd)));
+                    ctx.eval(1);
+                    let viol = |sig: String, detail: String| ctx.violation(Violation { family: "error-shapes".into(), case: case(), sig, detail, bytes: Some(t.bytes.clone()), extra: json!({}) });
+                    if !rd.failed {
+                        eprintln!("machinery error: read() call #{} of {} was not reached", ci, t.name);
+                        std::process::exit(2);
+                    }
+                    match classify(r, &t.want) {
+                        Outcome::Ok(_) => viol("error-swallowed".into(), format!("read() call #{} failed before the end of the last frame was delivered, but load returned a sprite", ci)),
+                        Outcome::Panic(m) => viol(format!("panic:{}", sig_of(&m)), m),
+                        Outcome::Err(e) => {
+                            ctx.outcome(hash64(&("ioerr", fi)));
+                            if let Err(m) = check_ext(&e, *kind, *shape, tok) {
+                                viol(format!("wrong-error:{:?}:{}", shape, sig_of(&m)), format!("injected {:?} built as {:?}: {}", kind, shape, m));
+                            }
+                        }
+                    }
+                }
+            });
+        }
+        ctx.family("error-shapes", n, &format!("every read() call of the default schedule (before the end of the last frame) fails with each of {} errors: all 38 stable io::ErrorKind values other than Interrupted, each built with a custom error payload / a message payload / no payload, and 15 raw OS error codes; load must return IoError holding exactly that error (kind, OS code, payload), also through source()", fails.len()), true);
     }
     ctx.note("arbitrary partitions beyond uniform sizes and <= d deviations are not covered (2^(len-1) partitions)");
     ctx.finish()
